@@ -15,6 +15,7 @@ import (
 	"github.com/tebeka/atexit"
 	"pgregory.net/rapid"
 
+	"verif/lib/cmdhist"
 	"verif/lib/plat"
 	"verif/lib/stats"
 )
@@ -312,7 +313,7 @@ func RunThreadsCase(c ThreadsCase) (res stats.Result) {
 				q := &qs{q: d.CreateCommandQueue(ctx)}
 				for b := 0; b < 2; b++ {
 					q.bufs[b] = d.AllocateMemory(ctx, uint64(c.N*4))
-					q.model[b] = pattern(uint32(100*ti+10*len(queues)+b), c.N)
+					q.model[b] = cmdhist.Pattern(uint32(100*ti+10*len(queues)+b), c.N)
 					d.EnqueueMemCopyH2D(q.q, q.bufs[b], append([]uint32(nil), q.model[b]...))
 				}
 				queues = append(queues, q)
@@ -326,7 +327,7 @@ func RunThreadsCase(c ThreadsCase) (res stats.Result) {
 						newQueue()
 					}
 				case "h2d":
-					q.model[0] = pattern(op.Seed, c.N)
+					q.model[0] = cmdhist.Pattern(op.Seed, c.N)
 					d.EnqueueMemCopyH2D(q.q, q.bufs[0], append([]uint32(nil), q.model[0]...))
 				case "kernel":
 					out := make([]uint32, c.N)
@@ -334,8 +335,8 @@ func RunThreadsCase(c ThreadsCase) (res stats.Result) {
 						out[j] = v*op.Mul + op.Add
 					}
 					q.model[1] = out
-					d.EnqueueLaunchKernel(q.q, scaleKernel(op.Mul, op.Add), [3]uint32{uint32(c.N), 1, 1}, [3]uint16{64, 1, 1},
-						&scaleArgs{In: q.bufs[0], Out: q.bufs[1]})
+					d.EnqueueLaunchKernel(q.q, cmdhist.ScaleKernel(op.Mul, op.Add), [3]uint32{uint32(c.N), 1, 1}, [3]uint16{64, 1, 1},
+						&cmdhist.ScaleArgs{In: q.bufs[0], Out: q.bufs[1]})
 				case "d2h":
 					got := make([]uint32, c.N)
 					d.EnqueueMemCopyD2H(q.q, got, q.bufs[1])
